@@ -212,6 +212,8 @@ impl Snapshot {
 			return Ok(Some((item.1, item.0.seq_num()))); // Key found, return the value
 		}
 		drop(memtable_lock); // Release the lock on the active memtable
+		#[cfg(surrealkv_verif)]
+		crate::verif::yp("get:active_done");
 
 		// Read lock on the immutable memtables
 		let memtable_lock = self.core.immutable_memtables.read()?;
@@ -227,6 +229,8 @@ impl Snapshot {
 			}
 		}
 		drop(memtable_lock); // Release the lock on the immutable memtables
+		#[cfg(surrealkv_verif)]
+		crate::verif::yp("get:immutables_done");
 
 		// Read lock on the level manifest
 		let level_manifest = self.core.level_manifest.read()?;
